@@ -553,7 +553,7 @@ def split_rule(repo, rep):
 
 
 def run(repo, rep, tier):
-    rep.rule("R-C09-6", "every parameter of the functions behind this property is read (rule-based splits): none is accepted and then ignored")
+    rep.rule("R-C09-6", "every parameter of the functions behind this property is read (rule-based splits): none is accepted and then ignored, and no control parameter (cutoff, limit, tolerance, window, count, switch) is replaced by another value before use (coercion and default filling aside)")
     from .shared import unused_parameters
     unused_parameters(repo, rep, "R-C09-6", ("wavespectra.partition.partition.Partition", "wavespectra.specarray.SpecArray.split", "wavespectra.specarray.SpecArray.stats", "wavespectra.core.utils.waveage", "wavespectra.core.utils.is_overlap"), "rule-based splits")
     rep.rule("R-C09-1", "wave-age mask is exactly celerity(freq, dpt) <= agefac*wspd*cos(D2R*(dir - wdir)); ptm4 = mask / ~mask of one object")
